@@ -257,4 +257,10 @@ fn get_skip_height(height: BlockNumber) -> BlockNumber {
     }
 }
 
+/// verif hook: the private skip-height function
+#[cfg(feature = "verif-hooks")]
+pub fn verif_get_skip_height(height: BlockNumber) -> BlockNumber {
+    get_skip_height(height)
+}
+
 pub const SHRINK_THRESHOLD: usize = 300;
